@@ -35,6 +35,9 @@ type PrioSc struct {
 	// ReuseMap: the caller clears and reuses the map it passed as Inputs once the
 	// constructor has returned (the discipline must have taken what it needs).
 	ReuseMap bool `json:"reuse_map,omitempty"`
+	// ReuseKeys: what the caller leaves in the reused map: 0 = a foreign key only,
+	// 1 = nothing, 2 = all but one of the original keys, 3 = the original keys plus a foreign one.
+	ReuseKeys int `json:"reuse_keys,omitempty"`
 	// Unit is the measured idle period of the discipline (simulated ns per idle round, 1
 	// for the shipped constants); every pause of the scenario was multiplied by it.
 	Unit    int64 `json:"unit"`
@@ -765,6 +768,9 @@ func genPrio(engine, prop string, r *simrt.SplitMix) *PrioSc {
 	}
 
 	sc.ReuseMap = r.Intn(4) == 0
+	if sc.ReuseMap {
+		sc.ReuseKeys = r.Intn(4)
+	}
 
 	// stop scenarios: a second, concurrent Stop / a GracefulStop after Stop
 	if sc.Class == "stop" && r.Intn(3) == 0 {
@@ -1197,11 +1203,21 @@ func buildPrio(sc *PrioSc) (simrt.Config, func()) {
 		simrt.Note("new", int64(sc.H), 0)
 
 		if sc.ReuseMap {
-			for p := range inputs {
+			first := true
+
+			for _, p := range simrt.MapKeys("env:reuse-map", inputs) {
+				if sc.ReuseKeys == 3 || (sc.ReuseKeys == 2 && !first) {
+					continue
+				}
+
+				first = false
+
 				delete(inputs, p)
 			}
 
-			inputs[987654321] = nil
+			if sc.ReuseKeys == 0 || sc.ReuseKeys == 3 {
+				inputs[987654321] = nil
+			}
 		}
 
 		// Err reader: its closure is the termination signal every engine has
